@@ -1,4 +1,5 @@
 """Rules about src/vlq.rs shared by C03, C06 and C11."""
+import absint
 import q
 from mir import Bin, Call, Cast, Const, Index, Named, Un, Var
 from rules.common import (RFC4648, const_bytes, error_construct_blocks, error_returned, expect_defs, has_fact,
@@ -48,9 +49,17 @@ def reader_roles(ctx, body):
             roles[a0] = "rv"
     if push is None:
         raise ValueError("no Vec::push into a parameter found")
-    cur = q.root_local(strip_casts(q.arg_expr(body, push[1], 1)))
+    cur = None
+    for l in range(len(body.locals)):
+        if body.local_ty(l) != "i64":
+            continue
+        for sh_, site, e in q.def_shapes(body, l, {l: "cur"}):
+            if (sh_.startswith("Add(cur,") or sh_.startswith("BitOr(cur,")) and "checked_shl(" in sh_:
+                cur = l
     if cur is None:
-        raise ValueError("pushed value is not a local")
+        cur = q.root_local(strip_casts(q.arg_expr(body, push[1], 1)))
+    if cur is None:
+        raise ValueError("no accumulator found")
     roles[cur] = "cur"
     # shift: second operand of checked_shl (or shift amount)
     shl = q.calls_to(body, "checked_shl")
@@ -98,7 +107,7 @@ def reader_shape(ctx, rule):
     for v in ("BitAnd(31,enc)", "Rem(enc,32)"):
         for op in ("Add", "BitOr"):
             allowed["%s(cur,try(Option::ok_or(i64::checked_shl(%s,shift),Error::VlqOverflow{})))" % (op, v)] = "accumulate"
-    found = expect_defs(ctx, rule, body, cur, roles, allowed, ["zero", "accumulate", "drop-sign-bit", "negate"], "accumulator")
+    found = expect_defs(ctx, rule, body, cur, roles, allowed, ["zero", "accumulate"], "accumulator")
     expect_defs(ctx, rule, body, shift, roles, {"0": "zero", "Add(5,shift)": "step5"}, ["zero", "step5"], "shift")
     ctx.check(body.local_ty(cur) == "i64", rule, fn, "accumulator:i64", "the accumulator is 64 bits wide (13 digits fit, the 14th overflows the shift)")
 
@@ -141,27 +150,44 @@ def reader_shape(ctx, rule):
             return True
         ctx.check(every_path({shl[0][0]}), rule, fn, "checked_shl:every-digit", "every digit (zero payload included) passes the checked shift, so a 14th digit always overflows", ctx.site(body, shl[0][0]))
         ctx.check(bool(step_blocks) and every_path(set(step_blocks)), rule, fn, "shift:every-digit", "the shift advances by 5 for every digit")
-    allp = [q.shape(body.expr_of_call(t), roles) for bi, t in q.calls_to(body, "Vec::<T, A>::push")]
-    ctx.check(allp == ["Vec::push(rv,cur)"], rule, fn, "push:only-decoded-values", "the only thing ever appended to the output is the decoded accumulator (no shortcut pushes a value that did not go through the digit arithmetic)", detail=str(allp))
-    # every digit goes through the table load: the load dominates every way back to the loop head
+    allp = q.calls_to(body, "Vec::<T, A>::push")
+    ctx.check(len(allp) == 1 and q.shape(q.arg_expr(body, allp[0][1], 0), roles) == "rv", rule, fn, "push:only-decoded-values",
+              "there is exactly one place where a value is appended to the output (no shortcut pushes a value that did not go through the digit arithmetic)", detail=str(len(allp)))
     # continuation test: push dominated by Shr(enc,5) == 0
     pb = push[0]
     cont_ok = has_fact(body, pb, roles, ("Eq", "0", "Shr(enc,5)"), ("Eq", "0", "BitAnd(32,enc)"), ("Eq", "0", "Div(enc,32)"))
     ctx.check(cont_ok, rule, fn, "push:cont==0", "a value is pushed only when the continuation bit (bit 5) of the digit is clear", ctx.site(body, pb))
-    # sign: Neg dominated by (cur & 1) != 0 taken before the shift
-    for site in found.get("negate", []):
-        ok = has_fact(body, site[0], roles, ("Ne", "0", "BitAnd(1,cur)"), ("Eq", "1", "BitAnd(1,cur)"), ("Ne", "0", "Rem(cur,2)"))
-        ctx.check(ok, rule, fn, "negate:sign-bit", "negation happens exactly when bit 0 of the accumulated value is set", ctx.site(body, *site))
-        # the sign must be sampled before the shift that drops it
-        shr_sites = found.get("drop-sign-bit", [])
-        sign_locals = [l for l in range(len(body.locals)) if any(s == "BitAnd(1,cur)" for s, _, _ in q.def_shapes(body, l, roles))]
-        good = False
-        for sl in sign_locals:
-            for _, ssite, _ in q.def_shapes(body, sl, roles):
-                for shs in shr_sites:
-                    if (ssite[0] == shs[0] and ssite[1] < shs[1]) or (ssite[0] != shs[0] and body.dominates(ssite[0], shs[0])):
-                        good = True
-        ctx.check(good, rule, fn, "sign:sampled-before-shift", "bit 0 is read before the accumulator is shifted right by one")
+    # what is pushed: symbolic execution of every path from the accumulation to the push. With ACC the
+    # accumulated value, the pushed value is ACC >> 1, negated exactly when bit 0 of ACC is set -
+    # whether the code updates the accumulator in place, binds fresh locals or calls a helper.
+    acc_sites = found.get("accumulate", [])
+    if ctx.check(len(acc_sites) == 1, rule, fn, "accumulate:one", "digits are accumulated at one place"):
+        ab, ai = acc_sites[0]
+        start_i = ai + 1 if ai < len(body.blocks[ab]["stmts"]) else None
+        if start_i is None:
+            # the accumulation is the result of a call terminator: continue in its successor
+            ab, start_i = body.blocks[ab]["term"].get("t"), 0
+        paths = absint.sym_paths(body, ab, start_i, pb, {cur: "ACC"}, avoid=[heads[0]] if len(heads) == 1 else ())
+        ok = bool(paths)
+        seen_par = set()
+        detail = []
+        for pth in paths or []:
+            val = q.shape(body.expr_of_operand(push[1]["args"][1], depth=0), pth["store"])
+            par = None
+            for sh_, taken in pth["conds"]:
+                p_ = _parity(sh_, taken)
+                if p_ is not None:
+                    par = p_ if par is None or par == p_ else "conflict"
+            detail.append((par, val))
+            seen_par.add(par)
+            if par == "odd":
+                ok = ok and val == "Neg(Shr(ACC,1))"
+            elif par == "even":
+                ok = ok and val == "Shr(ACC,1)"
+            else:
+                ok = False
+        ctx.check(ok and seen_par == {"odd", "even"}, rule, fn, "push:value",
+                  "the pushed value is the accumulated value shifted right by one, negated exactly when its bit 0 (read before the shift) is set", ctx.site(body, pb), detail=str(detail)[:400])
     # after the push the state is reset (zero defs dominated by the push block)
     zeros_after = [s for s in found.get("zero", []) if s[0] != 0 and body.dominates(pb, s[0]) or s[0] == body.blocks[pb]["term"].get("t")]
     ctx.check(bool(zeros_after), rule, fn, "reset-after-push", "the accumulator is reset to 0 after each pushed value")
@@ -204,6 +230,28 @@ def reader_shape(ctx, rule):
     ctx.check(len(err_blocks) == 4, rule, fn, "rejections:count", "the reader has exactly four error exits (foreign byte, shift overflow, leftover, no values)", detail=str(sorted(err_blocks)))
     # (d) sentinel discipline
     sentinel(ctx, rule, body, roles, enc)
+
+
+def _parity(shape, taken):
+    """Which parity of ACC does taking this branch establish? (None: the test is about something else)"""
+    tests = {"BitAnd(1,ACC)": "val", "Rem(ACC,2)": "val", "Ne(0,BitAnd(1,ACC))": "ne0", "Eq(0,BitAnd(1,ACC))": "eq0", "Eq(1,BitAnd(1,ACC))": "eq1", "Ne(1,BitAnd(1,ACC))": "ne1",
+             "Ne(0,Rem(ACC,2))": "ne0", "Eq(0,Rem(ACC,2))": "eq0"}
+    kind = tests.get(shape)
+    if kind is None:
+        return None
+    if isinstance(taken, tuple):  # ("not", listed values): the otherwise edge
+        listed = set(taken[1])
+        if kind == "val":
+            return "odd" if listed == {0} else ("even" if listed == {1} else None)
+        truth = 1 if listed == {0} else (0 if listed == {1} else None)
+    else:
+        if kind == "val":
+            return "even" if taken == 0 else "odd"
+        truth = taken
+    if truth is None:
+        return None
+    odd_when_true = kind in ("ne0", "eq1")
+    return "odd" if bool(truth) == odd_when_true else "even"
 
 
 def sentinel(ctx, rule, body, roles, enc):
